@@ -26,6 +26,8 @@ type C02Case struct {
 	// Share: the root holds the same non-empty container content twice and is built with ONE instance at
 	// both places (an acyclic structure in which a container is reachable along two paths)
 	Share bool `json:"share,omitempty"`
+	// Route != 0: built through the construction routes of BuildVariant (see C01Case)
+	Route int `json:"route,omitempty"`
 }
 
 var lenientSpellings = []string{"0x1F", "0X1f", "0b101", "0o17", "017", "010", "1_000", "+1", ".5", "5.", "1E5", "1e5", "1.50", "1.0", "-0", "-0.0", "0e0",
@@ -62,6 +64,7 @@ func GenC02(t *rapid.T) *C02Case {
 	if oneIn(t, 8, "share") {
 		c.Root, c.Share = withSharedChild(t, c.Root)
 	}
+	c.Route = genRoute(t, c.Share)
 	if oneIn(t, 5, "remutate") {
 		c.Muts = genNestedMuts(t)
 	}
@@ -160,7 +163,7 @@ func CheckC02(c *C02Case, st *Stats) error {
 	if root.K != KList && root.K != KObject {
 		return nil
 	}
-	orig := buildMaybeShared(root, c.Share)
+	orig := buildMaybeShared(root, c.Share, c.Route)
 	if c.Share {
 		st.Count("shared_instance")
 	}
